@@ -84,6 +84,10 @@ def abstract_charts(tier="thorough"):
 
 def _picked_charts():
     out = []
+    # size: 300 notes on the half-beat grid (every 6th a hold of a quarter beat), 4 and 7 keys, tempo changes at beats 4 and 12
+    for keys in (4, 7):
+        notes = [(F(i, 2), (i * 3) % keys, F(1, 4) if i % 6 == 3 else None) for i in range(300)]
+        out.append(dict(keys=keys, t0=0, bpms=BPM_LISTS["two"], notes=notes, name=f"{keys}k/t0=0/two/large300"))
     for keys in (4, 7, 6, 8, 16):
         for t0 in (0, 341):
             for bn, bl in BPM_LISTS.items():
